@@ -213,6 +213,7 @@ pub fn run(args: &[String], plans: &str, trace_path: &str, blobs: &str) -> i32 {
         let line = line.unwrap();
         if line.trim().is_empty() { continue; }
         let p: Value = serde_json::from_str(&line).unwrap();
+        if let Ok(m) = std::env::var("VH_PROGRESS") { let _ = std::fs::write(&m, p.get("id").and_then(|x| x.as_str()).unwrap_or("?")); }
         match p.get("mode").and_then(|x| x.as_str()).unwrap_or("read") {
             "write" => run_write_plan(&p, &mut tr),
             _ => run_read_plan(&p, &mut tr),
